@@ -150,6 +150,13 @@ def flow_scenarios(ctx):
                     "nonce_on_get": True, "rules": []})
     scs.append({"name": "contacts", "steps": [{"key_type": "ecdsa_p256"}, {"key_type": "ecdsa_p256", "contacts": ["c@example.org"]}],
                 "nonce_on_get": False, "rules": []})
+    # a request that is delivered (its nonce is consumed) but never answered, then the next attempt:
+    # the next POST must not carry that nonce again (with and without Replay-Nonce on GET answers)
+    for pos in ("newAccount", "newOrder", "challenge", "finalize"):
+        for nog in (False, True):
+            scs.append({"name": "dropped-%s-%s" % (pos, "nog" if nog else "plain"), "steps": [{"key_type": "ecdsa_p256"}],
+                        "nonce_on_get": nog, "n_postop": 2,
+                        "rules": [{"kind": pos, "nth": 0, "answer": {"drop": True}}]})
     for alg in ("HS256", "HS384", "HS512"):
         scs.append({"name": "eab-" + alg, "steps": [{"key_type": "ecdsa_p256", "eab": alg}], "nonce_on_get": True, "rules": []})
     return [dict(s, idx=i) for i, s in enumerate(scs)]
@@ -179,9 +186,10 @@ def run_flow(sc, root, helper):
             log = os.path.join(d, "hooks.log")
             if os.path.exists(log):
                 os.remove(log)
-            obs = flow.run_scenario(d, [cert], accounts=[acct], ca=ca, helper=helper, timeout=40)
+            obs = flow.run_scenario(d, [cert], accounts=[acct], ca=ca, helper=helper, timeout=40,
+                                    n_postop=sc.get("n_postop", 1))
             posts = [h for h in obs["hooks"] if h["name"] == "rec-post-operation"]
-            ok_all = ok_all and bool(posts) and flow.hook_args(posts[0]).get("is_success") == "true"
+            ok_all = ok_all and bool(posts) and flow.hook_args(posts[-1]).get("is_success") == "true"
     finally:
         ca.stop()
     return {"sc": sc, "log": list(ca.log), "ok": ok_all, "accounts": ca.accounts}
